@@ -78,7 +78,14 @@ func (runInfo *runInfoStruct) invokeLetMemberExpr(expr *ast.MemberExpr) {
 			runInfo.rv = nilValue
 			return
 		}
-		runInfo.rv = runInfo.rv.FieldByIndex(field.Index)
+		var reachable bool
+		runInfo.rv, reachable = fieldByIndex(runInfo.rv, field.Index)
+		if !reachable {
+			// the field is promoted from an embedded pointer that is nil
+			runInfo.err = newStringError(expr, "member '"+expr.Name+"' is a field of an embedded pointer that is nil")
+			runInfo.rv = nilValue
+			return
+		}
 		// From reflect CanSet:
 		// A Value can be changed only if it is addressable and was not obtained by the use of unexported struct fields.
 		// Often a struct has to be passed as a pointer to be set
